@@ -26,6 +26,7 @@ structure Tables where
   methodCall : List Exc
   attachMdDecode : List Exc
   attachGuard : List Exc
+  attachConvert : List Exc
   firstRead : List Exc
   firstReadDrains : Bool
   firstDrainSkips : List Exc
@@ -41,7 +42,7 @@ structure Tables where
 def Tables.gen : Tables :=
   { supers := Gen.C05.supers, serveLoop := Gen.C05.serveLoop, readRequestTry := Gen.C05.readRequestTry,
     versionGate := Gen.C05.versionGate, validation := Gen.C05.validation, methodCall := Gen.C05.methodCall,
-    attachMdDecode := Gen.C05.attachMdDecode, attachGuard := Gen.C05.attachGuard, firstRead := Gen.C05.firstRead,
+    attachMdDecode := Gen.C05.attachMdDecode, attachGuard := Gen.C05.attachGuard, attachConvert := Gen.C05.attachConvert, firstRead := Gen.C05.firstRead,
     firstReadDrains := Gen.C05.firstReadDrainsOnIpcError, firstDrainSkips := Gen.C05.firstReadDrainSkips,
     firstDrainEnds := Gen.C05.firstReadDrainEnds, traceDecode := Gen.C05.traceDecode,
     methodDecode := Gen.C05.methodDecode, pointerGuard := Gen.C05.pointerGuard, asPyGuard := Gen.C05.asPyGuard, releaseGuard := Gen.C05.releaseGuard,
@@ -92,7 +93,9 @@ structure Req where
   isPointer : Bool                -- `is_shm_pointer_batch`: zero rows ∧ `vgi_rpc.shm_offset` present ∧ no log-level key
   -- shared memory
   staticShm : Bool                -- a segment is already there (ShmPipeTransport / cached from an earlier request)
-  attach : Step                   -- `ShmSegment.attach(name, size)` for the advertised name (OS + segment header)
+  shmOpen : Step                  -- `SharedMemory(name=…, create=False, size=…)` for the advertised name (the OS)
+  allocInit : Step                -- `ShmAllocator(buf, size)` on the mapping: header unpack (struct.error when the mapping is
+                                  --   smaller than the header) and magic / version / size checks (ValueError)
   resolve : Step                  -- `resolve_shm_batch` against the segment (int(), bounds, region content)
   release : Step                  -- `release_shm()` = `shm.free(offset)` in the `finally` (the allocator may not know the offset)
   -- the batch kwargs are read from
@@ -140,6 +143,16 @@ def drainWith (T : Tables) (skips ends : List Exc) : List Step → Step
 /-- `_drain_stream(reader)` -/
 def drain (T : Tables) (l : List Step) : Step := drainWith T T.drainSkips T.drainEnds l
 
+/-- `ShmSegment.attach(name, size)`: open the mapping, validate its header; header failures of the classes in
+`attachConvert` are re-raised as ValueError after the mapping has been closed, anything else propagates as it is -/
+def attachStep (T : Tables) (rq : Req) : Step :=
+  match rq.shmOpen with
+  | .raises e => .raises e
+  | _ =>
+    match rq.allocInit with
+    | .raises e => if caught T T.attachConvert e then .raises .ValueError else .raises e
+    | _ => .ok
+
 /-- `_maybe_attach_shm(md, kind)` on a non-HTTP transport: `some seg` / `None` -/
 def maybeAttach (T : Tables) (rq : Req) : Ex Bool :=
   match rq.shmName with
@@ -154,7 +167,7 @@ def maybeAttach (T : Tables) (rq : Req) : Ex Bool :=
       match dec with
       | some e => if caught T T.attachMdDecode e then .ok false else .raises e
       | none =>
-        match rq.attach with
+        match attachStep T rq with
         | .ok => .ok true
         | .raises e => if caught T T.attachGuard e then .ok false else .raises e
         | .blocks => .ok true
